@@ -78,6 +78,57 @@ def hook_sender(R, env, prog, dctx, arm, variant, role_field, rule):
     G = Guard("hook:" + role_field, boolean=boolean)
     found = []
     ok, off = arm_guarded(prog, dctx, arm, G, env.depth, found)
+    if not ok and not seen_roles:
+        # no derivation is compared at all: is the sender compared with a STORED copy of the derived accounts (a cache
+        # item refreshed when the configuration is written)?  Whether such a cache equals derive(current config) is an
+        # invariant over all writers of CONFIG, which this rule does not model: not decided.  What is decided: every
+        # site that may change the sections the derivation reads also rewrites the cache (a stale cache is a violation).
+        from engine.analysis import forms as _forms_h
+        hctx_ = handler_ctx(prog, dctx, arm)
+        caches = set()
+        for c_, p_ in inline_walk(prog, hctx_, 3):
+            for _, atom in c_.atoms():
+                t_ = atom[1]
+                if atom[0] == "bool" and t_[0] == "call" and t_[1] in EQ and len(t_[2]) == 2 and any(is_sender(x_) for x_ in t_[2]):
+                    for x_ in t_[2]:
+                        if is_sender(x_):
+                            continue
+                        for f_ in _forms_h(prog, x_, 3):
+                            for s_ in subterms(f_):
+                                if s_[0] == "call" and s_[1] in ("cw_storage_plus::Item::may_load", "cw_storage_plus::Item::load") and s_[2] and ns_of(prog, s_[2][0]) not in (None, "config", "state"):
+                                    caches.add(ns_of(prog, s_[2][0]))
+        if caches:
+            sites_ = site_contexts(prog, "staking", env)
+            READ = {"native_chain_config": ("staker_address", "reward_collector_address"), "protocol_chain_config": ("ibc_channel_id", "account_address_prefix")}
+            ch_ = {}
+            for site_, c_ in sites_.items():
+                if site_ in ("migrate", "query", "sudo", "reply"):
+                    continue  # (layout migrations run against stores of other versions: not judged here)
+                for op_ in storage_ops_deep(prog, c_, env.depth):
+                    if op_["kind"] != "w" or ns_of(prog, op_["args"][0]) != "config" or item_crate(op_["args"][0]) != "staking":
+                        continue
+                    for base_, d_ in write_value_alternatives(prog, op_, "config") or [(("unknown",), {})]:
+                        whole = base_[0] == "agg" or not is_stored_base(prog, base_, "config", "staking")
+                        for sec_, subs_ in READ.items():
+                            hit_ = whole or any(p_[0] == sec_ and (len(p_) == 1 or p_[1] in subs_) for p_ in d_)
+                            if hit_:
+                                ch_.setdefault(sec_, {}).setdefault(site_, op_)
+            for fld_, ss_ in sorted(ch_.items()):
+                for site_, op_ in sorted(ss_.items()):
+                    c0 = sites_[site_]
+                    worlds_ = [("", c0)]
+                    if site_ == "UpdateConfig":
+                        other = "protocol_chain_config" if fld_ == "native_chain_config" else "native_chain_config"
+                        mf = lambda n_: (lambda t_: msg_field(t_, "UpdateConfig", n_))
+                        worlds_ = [(":only-" + fld_, c0.assume((mf(fld_), ("ok", True)), (mf(other), ("ok", False))).settle())]
+                    for wn_, w_ in worlds_:
+                        cw = [o_ for o_ in storage_ops_deep(prog, w_, env.depth) if o_["kind"] == "w" and ns_of(prog, o_["args"][0]) in caches]
+                        good_ = bool(cw) and any(must_pass(w_, o_["root_bb"]) for o_ in cw)
+                        R.ob(rule, "%s:cache-refreshed:%s%s" % (variant, site_, wn_), good_, "%s can change config.%s, which the ibc-hooks sender derivation reads, without rewriting the stored senders (%s): the authentication would keep using the accounts of the old configuration" % (site_, fld_, sorted(caches)), loc=op_["loc"], fn=op_["fn"])
+            R.set_undecided([rule], "the ibc-hooks sender is compared with a stored copy (%s) of the derived accounts; that the copy equals derive(current config) is an invariant over all CONFIG writers that is not modelled" % ", ".join(sorted(caches)))
+            R.ob(rule, variant, ok, "success exit reachable without `info.sender == derive(..)` (compared with a stored copy instead)", fn=hk)
+            R.clear_undecided([rule])
+            return ok
     R.ob(
         rule,
         variant,
